@@ -9,6 +9,7 @@
 pub mod blackbox;
 pub mod eng;
 pub mod gen;
+pub mod grid;
 pub mod props;
 pub mod refsearch;
 pub mod runner;
